@@ -145,8 +145,11 @@ def generate(R, tier, focus):
                         'seed': R.choice((None, 1, 7, 2 ** 32 - 1, R.randint(1, 10 ** 6)))})
         else:
             ops.append({'op': R.choice(PLAIN_OPS)})
+    probe = None
+    if R.random() < 0.15:
+        probe = {'kind': R.choice(('break', 'loader_ioerror')), 'at': R.randint(0, max(0, J - 1))}
     return {'engine': 'fcsim', 'region': region, 'mags': mags, 'cats': cats, 'config': cfg,
-            'start_ms': start_ms, 'end_ms': end_ms, 'obs': obs, 'ops': ops,
+            'start_ms': start_ms, 'end_ms': end_ms, 'obs': obs, 'ops': ops, 'probe': probe,
             'tz': R.choice(TZ_CHOICES), 'clock_us': R.randint(0, 4 * 10 ** 15)}
 
 
@@ -657,95 +660,142 @@ def _execute(scn, ctx, store, rng, clock, collect_results):
         prev_state = st
     if stats['opened'] > 1:
         ctx.count('rare:loader_reopened')
+    if scn.get('probe') and not ctx.violations:
+        run_probe(scn, ctx, w, canon)
 
 
-def _hist_of_resample(values, mags):
-    h = numpy.zeros(len(mags['edges']))
-    for v in numpy.asarray(values, dtype=float).ravel().tolist():
-        k = mbin_of(v, mags)
-        h[k] += 1
-    return h
-
-
-def check_c10(ctx, scn, model, name, op, vs, calls, oi):
-    """Library result vs the documented statistic on the literal catalogs + recorded draws."""
-    obs_counts = grid_counts(scn['obs'][op['obs']]['events'], scn['region'], scn['mags'])
-    n_obs = float(obs_counts.sum())
-    if model.n_union == 0:
-        ctx.count('precond:NU0')
-        return
-    if name == 'number':
-        want = model.number(obs_counts)
-    elif name == 'spatial':
-        want = model.spatial(obs_counts)
-    elif name == 'magnitude':
-        want = model.magnitude(obs_counts)
-    elif name == 'pseudolikelihood':
-        want = model.pseudolikelihood(obs_counts)
-    else:
-        choices = [c for c in calls if c[0] == 'choice']
-        if n_obs == 0:
-            hists = []
+def run_probe(scn, ctx, w, canon):
+    """Beyond-property faults (no listed property covers them): outcomes are counted, never judged."""
+    pr = scn['probe']
+    J = w.J
+    fc = w.new_forecast()
+    if pr['kind'] == 'break':
+        ctx.count('fire:probe_abandoned_iteration')
+        k = 0
+        try:
+            for c in fc:
+                k += 1
+                if k > pr['at']:
+                    break
+            nxt = full_pass(fc, J)
+        except SimBudgetExceeded:
+            ctx.count('probe:after_break:next_pass_never_ends')
+            return
+        except Exception as e:
+            ctx.count('probe:after_break:exception:' + type(e).__name__)
+            return
+        if [x[:2] for x in nxt] == [x[:2] for x in canon]:
+            ctx.count('probe:after_break:next_pass_complete')
+        elif len(nxt) < len(canon):
+            ctx.count('probe:after_break:next_pass_is_the_remainder')
         else:
-            if len(choices) != model.J:
-                if not calls:
-                    ctx.count('unobserved_rng_stream')
-                    return
-                ctx.violate('C10', 'resampling', '%s:number-of-resamples' % name,
-                            {'op': oi, 'choice_calls': len(choices), 'J': model.J})
-                return
-            for c in choices:
-                if numpy.size(c[2]) != int(n_obs):
-                    ctx.violate('C10', 'resampling', '%s:resample-size' % name,
-                                {'op': oi, 'size': int(numpy.size(c[2])), 'n_obs': n_obs})
-                    return
-            hists = [_hist_of_resample(c[2], scn['mags']) for c in choices]
-        want = model.resampled_magnitude(obs_counts, hists) if name == 'resampled_magnitude' \
-            else model.mll(obs_counts, hists)
-    ctx.count('c10_compared:' + name)
-    if want is None:
-        if vs is not None:
-            ctx.violate('C10', 'undefined_signalled', '%s:result-for-undefined' % name,
-                        {'op': oi, 'status': vs['status'], 'quantile': vs['quantile']})
-        else:
-            ctx.count('rare:no_result_signalled')
-        return
-    if vs is None:
-        ctx.violate('C10', 'statistic', '%s:no-result' % name, {'op': oi, 'want_status': want['status']})
-        return
-    if want['status'] != vs['status']:
-        ctx.violate('C10', 'status', '%s:%s-instead-of-%s' % (name, vs['status'], want['status']),
-                    {'op': oi, 'n_obs': n_obs})
-        return
-    if want['status'] != 'normal':
-        ctx.count('rare:status_' + want['status'])
-    if want['status'] == 'not-valid':
-        q = vs['quantile']
-        qs = q if isinstance(q, tuple) else (q,)
-        if any(x is not None and 0 <= x <= 1 for x in qs):
-            ctx.violate('C10', 'undefined_signalled', '%s:numeric-quantile-when-not-valid' % name,
-                        {'op': oi, 'quantile': q})
-        return
-    if not models.close(vs['obs'], want['obs']):
-        ctx.violate('C10', 'statistic', '%s:observed' % name, {'op': oi, 'got': vs['obs'], 'want': want['obs']})
-        return
-    if vs['obs'] is not None and numpy.isinf(vs['obs']):
-        ctx.violate('C10', 'statistic', '%s:silent-infinite' % name, {'op': oi})
-    if not models.close_seq(vs['dist'], want['dist']):
-        sig = 'distribution-length' if len(vs['dist']) != len(want['dist']) else 'distribution'
-        ctx.violate('C10', 'statistic', '%s:%s' % (name, sig), {'op': oi, 'got': vs['dist'], 'want': want['dist']})
-        return
-    # quantiles: C09 convention applied to the library's own returned numbers (ulp ties)
-    if len(vs['dist']) > 0 and vs['obs'] is not None:
-        ge, le = models.ecdf_ge_le(vs['dist'], vs['obs'])
-        q = vs['quantile']
-        if not (isinstance(q, tuple) and len(q) == 2 and models.close(q[0], ge, 1e-12, 1e-12)
-                and models.close(q[1], le, 1e-12, 1e-12)):
-            ctx.violate('C10', 'quantile', '%s:not-empirical-probabilities' % name,
-                        {'op': oi, 'got': q, 'want': (ge, le)})
-    elif len(vs['dist']) == 0:
-        ctx.count('rare:empty_distribution')
+            ctx.count('probe:after_break:next_pass_other')
+    elif pr['kind'] == 'loader_ioerror' and w.cfg['source'] == 'file':
+        ctx.count('fire:probe_loader_ioerror')
+        inner_loader = fc.loader
+        at = pr['at']
 
+        def failing(**kw):
+            it = inner_loader(**kw)
+            n = 0
+            for c in it:
+                if n == at:
+                    raise OSError(5, 'simulated: Input/output error while streaming the forecast')
+                n += 1
+                yield c
+        fc.loader = failing
+        fc._load_catalogs()
+        try:
+            full_pass(fc, J)
+            ctx.count('probe:loader_ioerror:swallowed')
+            return
+        except OSError:
+            ctx.count('probe:loader_ioerror:propagates')
+        except Exception as e:
+            ctx.count('probe:loader_ioerror:other:' + type(e).__name__)
+            return
+        # after the fault stops: does the forecast recover on the next pass?
+        fc.loader = inner_loader
+        try:
+            nxt = full_pass(fc, J)
+        except SimBudgetExceeded:
+            ctx.count('probe:after_ioerror:next_pass_never_ends')
+            return
+        except Exception as e:
+            ctx.count('probe:after_ioerror:exception:' + type(e).__name__)
+            return
+        if [x[:2] for x in nxt] == [x[:2] for x in canon]:
+            ctx.count('probe:after_ioerror:recovers_with_complete_pass')
+        else:
+            ctx.count('probe:after_ioerror:next_pass_incomplete')
+
+
+# --------------------------------------------------------------------------- systematic sweep (C13)
+
+SWEEP_OPS = ('ITER', 'COUNTS', 'RATES', 'SPATIAL', 'MAGS', 'T:number', 'T:spatial', 'T:magnitude',
+             'T:pseudolikelihood', 'T:resampled_magnitude', 'T:MLL_magnitude')
+SWEEP_CONFIGS = [(src, store, filt) for src, store in (('list', True), ('file', True), ('file', False))
+                 for filt in ('off', 'ctor', 'assign+spatial')]
+
+
+def _sweep_world(cfg_idx):
+    src, store, filt = SWEEP_CONFIGS[cfg_idx]
+    region = {'kind': 'cart', 'dh': 0.5, 'origins': [[10.0, 20.0], [10.0, 20.5], [10.5, 20.0], [10.5, 20.5]],
+              'holes': [], 'bbox': [10.0, 20.0, 11.0, 21.0]}
+    mags = {'dm': 0.5, 'edges': [4.0, 4.5, 5.0]}
+    t0 = gen.T0_MS
+    t1 = gen.T0_MS + 30 * 86400000
+    cats = [[['c0e0', t0 + 5000, 20.25, 10.25, 5.5, 4.25], ['c0e1', t0 + 86400000, 20.75, 10.25, 10.0, 5.75]],
+            [],
+            [['c2e0', t0 + 7777123, 20.25, 10.25, 0.0, 4.75], ['c2e1', t0 + 9000000, 20.25, 10.75, 0.0, 4.25],
+             ['c2e2', t0 + 9500000, 20.25, 10.25, 33.3, 4.25]]]
+    cfg = {'source': src, 'store': store, 'wrapper': 'gen', 'n_cat_given': src == 'list', 'list_region': True,
+           'apply_filters': filt != 'off', 'filters_where': 'ctor' if filt == 'ctor' else 'assign', 'filters': [],
+           'filter_spatial': False, 'encoding': {'header': True, 'placeholders': False, 'fraction': True}}
+    if filt != 'off':
+        cfg['filters'] = ['magnitude >= 4.0', 'origin_time >= %d' % t0, 'origin_time < %d' % t1]
+        cats[0].append(['c0low', t0 + 6000, 20.25, 10.25, 5.5, 3.5])
+        cats[1].append(['c1late', t1 + 1000, 20.25, 10.25, 5.5, 4.25])        # catalog empty only after filtering
+        if filt == 'assign+spatial':
+            cfg['filter_spatial'] = True
+            cats[2].insert(1, ['c2out', t0 + 8000000, 20.25, 9.25, 0.0, 4.25])
+    obs = [{'kind': 'normal', 'events': [['o0', t0 + 1000, 20.25, 10.25, 5.5, 4.25], ['o1', t0 + 2000, 20.75, 10.75, 5.5, 5.25]]}]
+    return {'engine': 'fcsim', 'region': region, 'mags': mags, 'cats': cats, 'config': cfg, 'start_ms': t0, 'end_ms': t1,
+            'obs': obs, 'tz': 'UTC', 'clock_us': 0}
+
+
+def systematic_count(tier, focus):
+    if focus != 'C13':
+        return 0
+    L = 3 if tier == 'quick' else 4
+    n = len(SWEEP_OPS)
+    return len(SWEEP_CONFIGS) * sum(n ** k for k in range(1, L + 1))
+
+
+def systematic_at(i, tier, focus):
+    """the i-th scenario of the exhaustive sweep: every op sequence of length <= 3 (4 in thorough) x 9 configurations"""
+    L = 3 if tier == 'quick' else 4
+    n = len(SWEEP_OPS)
+    per_cfg = sum(n ** k for k in range(1, L + 1))
+    cfg_idx, j = divmod(i, per_cfg)
+    length = 1
+    while j >= n ** length:
+        j -= n ** length
+        length += 1
+    seq = []
+    for _ in range(length):
+        j, d = divmod(j, n)
+        seq.append(SWEEP_OPS[d])
+    scn = _sweep_world(cfg_idx)
+    ops = []
+    for k, o in enumerate(seq):
+        if o.startswith('T:'):
+            ops.append({'op': 'TEST', 'name': o[2:], 'obs': 0, 'rng_state': 1000 + k, 'seed': 7})
+        else:
+            ops.append({'op': o})
+    scn['ops'] = ops
+    scn['sweep'] = True
+    return scn
 
 # --------------------------------------------------------------------------- shrinking
 
@@ -813,6 +863,17 @@ class Engine:
     generate = staticmethod(generate)
     execute = staticmethod(execute)
     shrink_candidates = staticmethod(shrink_candidates)
+    systematic_count = staticmethod(systematic_count)
+    systematic_at = staticmethod(systematic_at)
+
+    @staticmethod
+    def systematic_rule(tier, focus):
+        L = 3 if tier == 'quick' else 4
+        return ('exhaustive: every sequence of length 1..%d over the %d operations %s on each of %d configurations '
+                '(in-memory list / streamed+cached / re-read file) x (filters off / given to the constructor / assigned '
+                'afterwards + spatial filter) of one fixed 3-catalog forecast (one catalog empty, one empty only after '
+                'filtering); these runs precede the seeded random ones and do not depend on VERIF_SEED' % (
+                    L, len(SWEEP_OPS), list(SWEEP_OPS), len(SWEEP_CONFIGS)))
 
     @staticmethod
     def shape(scn):
